@@ -220,6 +220,11 @@ def c07(a):
     c = Check("C07", a.tier, a.seed)
     workdir("C07")
     binary = build_harness()
+    if not a.replay:
+        # Engine C: the span the specification expects from Zoned::until has the properties C07 states, for every zone
+        # of a tiny universe (gaps, folds, set-backs across midnight at a month end) x every ordered pair of probes
+        c.add_mc(tlc_mc("MC_ZonedUntil.tla", "MC_ZonedUntil.cfg" if a.tier == "quick" else "MC_ZonedUntil_thorough.cfg",
+                        os.path.join(workdir("C07", False), "mc")))
     drive_and_validate(c, a, binary, "c07", "Trace_Civil.tla")
     # zoned differences: same law on zoned values (driver zd.rs)
     zoned_part(c, a, binary, "c07z")
@@ -228,7 +233,9 @@ def c07(a):
               "computes the expected span exactly (Temporal's surpass criterion on the unclamped year-month-day for months "
               "and years, exact BigInt nanoseconds for time units), checks a + s = b with its own addition, the negation "
               "law for since, the exact distance for duration_until and Err exactly when the span does not fit the unit "
-              "limits. Zoned pairs straddling gaps/folds are produced by the zoned driver.")
+              "limits. Zoned pairs straddling gaps/folds are produced by the zoned driver (incl. both sides of every set-back "
+              "of the clock that crosses midnight). MC_ZonedUntil model-checks the expected zoned difference itself against "
+              "the property (reversible, one sign, nothing above the largest unit) on a tiny universe of zones.")
     c.assumptions = TRUSTED
     return c.finish()
 
